@@ -27,7 +27,7 @@ THEOREMS = ["Mpir.AllocSafe." + t for t in (
     "Wrote.rd_src", "mpz_mul_alloc_safe", "mul_refines", "mulGeneric_refines", "mulTail_refines", "tmp_copy_spec", "Den.fresh",
     "mpz_tdiv_q_alloc_safe", "mpz_tdiv_q_request_necessary", "mpz_tdiv_r_alloc_safe", "tdiv_q_refines", "tdiv_r_refines",
     "Spec.tdiv_q_spec", "Spec.tdiv_r_spec", "copyIfSame_spec",
-    "mpf_urandomb_dest_safe", "mpf_urandomb_seeded_unsafe", "mpf_urandomb_fin_spec",
+    "mpf_urandomb_dest_safe", "mpf_urandomb_seeded_overruns", "mpf_urandomb_fin_spec",
     "mpz_tdiv_qr_alloc_safe", "tdiv_qr_refines", "Grown.owf",
     "mpz_set_d_alloc_safe", "set_d_refines", "extract_double_limbs",
     "mpz_sqrtrem_alloc_safe", "sqrtrem_refines", "sqrtremTail_refines", "Spec.sqrtrem_rem_spec",
